@@ -26,6 +26,7 @@ from hypothesis import strategies as st
 # ------------------------------------------------------------------ argument templates ('@' -> unique number)
 
 IDENT_T = ["a@", "fn_@", "Var@", "_x@", "ARG_@", "v@_name"]
+NONASCII_IDENT_T = ["t\u00fcr@_breite", "ma\u00df@", "\u00e9l@_x"]        # parameters are any unquoted text for CMake
 UNQ_T = ["a-@.b", "@", "x@/y", "@.5", "-D@", "a@+b", "k@=v", "a@:b", "<@>", "a@,b", "é@", "x@*",
          "e\u0301@", "\u212a@\u00b2", "%d@", "100%%@"]      # decomposed / compatibility characters, printf-like text
 QUOTED_T = ['"q@"', '"two words @"', '"a;b;@"', '"#@"', '"line\\nbreak@"', '"@ ${v}"', '"esc\\"@"', '"(@)"', '"[@]"', '" @ "',
@@ -172,7 +173,7 @@ def item(p, depth, ctx):
     if want("func"):
         f = st.fixed_dictionaries({
             "k": st.just("func"), "cmd": st.sampled_from(["function", "macro"]), "name": name_arg(),
-            "params": arglist(0, 4, IDENT_T + QUOTED_T[:4] + VAR_T[:3] + BRACKET_T[:3]), "doc": p.mdoc(),
+            "params": arglist(0, 4, IDENT_T + QUOTED_T[:4] + VAR_T[:3] + BRACKET_T[:3] + NONASCII_IDENT_T), "doc": p.mdoc(),
             "body": items(p, depth - 1, "body", p.body_max) if sub else st.just([]),
             "endarg": st.booleans(),
         })
